@@ -37,27 +37,28 @@ type Param struct{ Name, Type string }
 
 // Contract is the contract block of one function (or interface method, or lemma).
 type Contract struct {
-	Pkg         string // package directory key ("ion", "cmd/ion-go")
-	FuncID      string // "appendVarUint", "(*bitstream).Next", "Reader.IntValue"
-	Iface       bool
-	Lemma       bool
-	Trusted     bool
-	Inline      bool
-	Safe        []string    // property ids for which safety obligations are generated
-	SafeSet     bool        // a //@ safe line is present
-	Unroll      map[int]int // loop ordinal -> bound
-	Requires    []*Clause
-	Ensures     []*Clause
-	Invariant   map[int][]*Clause
-	Modifies    []string // location expressions (Go text)
-	ModSet      bool     // a modifies clause is present (possibly empty = modifies nothing)
-	Line        int
-	File        string
-	Notes       []string
-	Assumes     []string // free-text assumptions echoed in evidence
-	ModelOf     string   // model: full name of the library function
-	InlineCalls []string // callees whose body (not contract) is used inside this function
-	ModelFn     string   // model: spec-file function that replaces it
+	Pkg          string // package directory key ("ion", "cmd/ion-go")
+	FuncID       string // "appendVarUint", "(*bitstream).Next", "Reader.IntValue"
+	Iface        bool
+	Lemma        bool
+	Trusted      bool
+	Inline       bool
+	Safe         []string    // property ids for which safety obligations are generated
+	SafeSet      bool        // a //@ safe line is present
+	Unroll       map[int]int // loop ordinal -> bound
+	Requires     []*Clause
+	Ensures      []*Clause
+	Invariant    map[int][]*Clause
+	Modifies     []string // location expressions (Go text)
+	ModSet       bool     // a modifies clause is present (possibly empty = modifies nothing)
+	Line         int
+	File         string
+	Notes        []string
+	Assumes      []string // free-text assumptions echoed in evidence
+	ModelOf      string   // model: full name of the library function
+	InlineCalls  []string // callees whose body (not contract) is used inside this function
+	SplitReturns bool     // proof hint: postconditions are proved per return statement
+	ModelFn      string   // model: spec-file function that replaces it
 
 	// signature (filled from the AST)
 	Recv    *Param
@@ -212,6 +213,11 @@ func ParseContractFile(pkgKey, path string) ([]*Contract, error) {
 			}
 		case "inline":
 			cur.Inline = true
+		case "split":
+			if rest != "returns" {
+				return nil, fmt.Errorf("%s:%d: split returns", path, it.line)
+			}
+			cur.SplitReturns = true
 		case "inlinecall":
 			cur.InlineCalls = append(cur.InlineCalls, strings.Fields(rest)...)
 		case "safe":
